@@ -102,3 +102,10 @@ Proof. reflexivity. Qed.
 Example C01_pop_nonvacuous :
   de_iterate [[0; 1; 2; 3]; [0; 1; 2]] (fun _ => true) 10 4 [1; 1] [DZ 0; DZ 2; DZ 3; DF 5 (-1); DF (-3) 0; DZ 1; DZ 0] = Ok ([2; 1], [], 1).
 Proof. vm_compute. reflexivity. Qed.
+
+(* evolution strategy: one individual / mutation branch = the member's hill-climbing iterate; crossover branch = recombination of
+   two current positions (population order after the unstable argsort is an oracle), constraint test, move_climb fallback *)
+Theorem C01_es_iterate : forall sp cons fuel rrp, dims_ok sp -> forall mut curs t p t' c, Forall (in_box sp) curs -> nan_free t ->
+  es_iterate sp cons fuel rrp mut curs t = Ok (p, t', c) -> emit_ok sp cons p /\ is_suffix t' t.
+Proof. exact es_iterate_ok. Qed.
+Print Assumptions C01_es_iterate.
